@@ -330,7 +330,15 @@ func (w *W) collectRaces(atIdx int64) {
 			sides = append(sides, "")
 		}
 		if sides[0] == "" && sides[1] == "" {
-			w.rep.Broken = append(w.rep.Broken, "data race inside the harness: "+oneLineN(blk, 600))
+			head := blk
+			if i := strings.Index(head, "Goroutine "); i > 0 {
+				head = head[:i]
+			}
+			if strings.Contains(head, "verif/harness") {
+				w.rep.Broken = append(w.rep.Broken, "data race inside the harness: "+oneLineN(blk, 600))
+			} else {
+				w.rep.Counters["race_reports_without_a_frame_in_the_repository"]++ // e.g. inside a dependency: not this property
+			}
 			continue
 		}
 		sort.Strings(sides)
